@@ -205,12 +205,30 @@ def rule_AU1(ctx, tier):
             rr.fail("auth:ok-without-membership", "authenticate_user returns Ok without the recovered key being a registered user", where=a.line_of(bb))
     if not oks:
         rr.fail("auth:no-ok", "authenticate_user has no Ok return", where=a.span)
+    def only_recovered(t):
+        """the term is exactly UserId(Ok-payload of recover_pk(message, signature)) — no alternative source"""
+        for x in og.walk(t):
+            if isinstance(x, tuple) and x and x[0] in ("phi", "top"):
+                return False
+        rc = find_calls(t, "cryptography::recover_pk")
+        if len(rc) != 1:
+            return False
+        args = rc[0][2] if rc[0][0] == "call" else rc[0][4]
+        return args[0] == ("param", a.id, 2) and args[1] == ("param", a.id, 3)
     for bb in ck:
         k = arg_origin(ctx, a, bb, 1)
-        if has_call(k, "cryptography::recover_pk"):
-            rr.ok("membership test on the recovered key")
+        if only_recovered(k):
+            rr.ok("membership test on the key recovered from (message, signature), and on nothing else")
         else:
-            rr.fail("auth:membership-key", "membership is tested for `%s`" % og.show(k)[:100], where=a.line_of(bb))
+            rr.fail("auth:membership-key", "membership is tested for `%s`: the identity is not (only) the key recovered from this request's message and signature (e.g. a remembered key for the same signature would authenticate another message)" % og.show(k)[:160], where=a.line_of(bb))
+    for bb in oks:
+        for s_ in a.blocks[bb]["s"]:
+            if s_["k"] == "assign" and s_["d"] == [0] and s_["rv"]["k"] == "agg" and s_["rv"].get("variant") == "Ok":
+                v = ctx.og.operand(a, s_["rv"]["ops"][0])
+                if only_recovered(v):
+                    rr.ok("authenticate_user returns exactly the recovered key")
+                else:
+                    rr.fail("auth:returned-identity", "authenticate_user returns `%s`, which is not (only) the key recovered from this request's message and signature" % og.show(v)[:160], where=a.line_of(bb))
     # UUID::new binds locator and user id
     u = P.require("teos::extended_appointment::UUID::new")
     ret = ctx.og.local(u, 0)
@@ -229,7 +247,7 @@ def rule_AU1(ctx, tier):
             rr.ok("UUID::new consumes locator and user id")
         else:
             rr.fail("uuid:inputs", "UUID::new does not use both the locator and the user id (uses params %s)" % sorted(used), where=u.span)
-    rr.require_floor(38, "AU1 instances")
+    rr.require_floor(39, "AU1 instances")
     return rr
 
 
